@@ -33,10 +33,12 @@ Ops == 1..NO
 
 NoArr == [alive |-> FALSE, owner |-> 0, w |-> TRUE, w0 |-> TRUE, held |-> FALSE, touched |-> FALSE]
 NoTen == [alive |-> FALSE, arr |-> 0, creator |-> 0, base |-> 0, held |-> FALSE]
-NoOp  == [alive |-> FALSE, vars |-> <<>>, out |-> 0, refs |-> <<>>, guarded |-> FALSE]
+\* unreg : input tensors whose consumer list (`_ops`) no longer names this operation (a clear_graph emptied it)
+NoOp  == [alive |-> FALSE, vars |-> <<>>, out |-> 0, refs |-> <<>>, guarded |-> FALSE, unreg |-> {}]
 
 InitS == [arr |-> [a \in Arr |-> NoArr], ten |-> [t \in Ten |-> NoTen], op |-> [o \in Ops |-> NoOp],
-          cnt |-> [a \in Arr |-> 0], trk |-> {}, wait |-> [a \in Arr |-> {}], guard |-> TRUE]
+          cnt |-> [a \in Arr |-> 0], trk |-> {}, wait |-> [a \in Arr |-> {}], guard |-> TRUE,
+          kf9 |-> FALSE]    \* KNOWN FINDING F-C09-1 has been triggered: an in-place update missed a consumer
 
 VARIABLES s, hist
 vars == <<s, hist>>
@@ -167,7 +169,7 @@ DoOp(x, opnds) ==
                         !.ten[t] = [alive |-> TRUE, arr |-> out, creator |-> o, base |-> 0, held |-> TRUE]]
       x3 == IF x.guard THEN Lock(x2, out, FALSE) ELSE x2
   IN [x3 EXCEPT !.op[o] = [alive |-> TRUE, vars |-> ts, out |-> t,
-                           refs |-> IF x.guard THEN Append(refs0, out) ELSE <<>>, guarded |-> x.guard]]
+                           refs |-> IF x.guard THEN Append(refs0, out) ELSE <<>>, guarded |-> x.guard, unreg |-> {}]]
 
 \* a non-view operation writing into a user-supplied ndarray:  f(..., out=<array>).  The result tensor wraps the
 \* user's array itself; the array (and its base, if it is a view) is locked like any output.
@@ -186,7 +188,7 @@ DoOpOut(x, opnds, outa) ==
   IN \* locking the inputs may have made the target read-only (it is, or aliases, an input): NumPy then refuses
      \* to write into it, the forward pass raises, and the statement is a failed operation
      IF ~x1.arr[outa].w THEN Collect(ReleaseAll(x1, refs0)) ELSE
-     [x4 EXCEPT !.op[o] = [alive |-> TRUE, vars |-> ts, out |-> t, refs |-> refs, guarded |-> x.guard]]
+     [x4 EXCEPT !.op[o] = [alive |-> TRUE, vars |-> ts, out |-> t, refs |-> refs, guarded |-> x.guard, unreg |-> {}]]
 
 \* an in-place update of tensor t (an owner without registered views):   t[...] = value   /   t += value
 \* (Tensor._in_place_op): a placeholder tensor takes over t's old array, its creator and its consumers; the update is
@@ -202,9 +204,13 @@ InPlace(x, t, opnd) ==
      ELSE
      LET pt == Pick(FreeT(x0))
          x1 == [x0 EXCEPT !.ten[pt] = [alive |-> TRUE, arr |-> a0, creator |-> x0.ten[t].creator, base |-> 0, held |-> FALSE],
-                          !.op = [o \in Ops |-> IF @[o].alive
+                          \* only the consumers still LISTED by t are re-routed to the placeholder.  KNOWN FINDING F-C09-1:
+                          \* an operation recorded before a clear_graph emptied t's consumer list keeps pointing at t
+                          !.op = [o \in Ops |-> IF @[o].alive /\ t \notin @[o].unreg
                                                 THEN [@[o] EXCEPT !.vars = [i \in 1..Len(@) |-> IF @[i] = t THEN pt ELSE @[i]]]
-                                                ELSE @[o]]]
+                                                ELSE @[o]],
+                          !.kf9 = @ \/ \E o \in Ops : x0.op[o].alive /\ t \in x0.op[o].unreg
+                                                        /\ \E i \in 1..Len(x0.op[o].vars) : x0.op[o].vars[i] = t]
          a1 == Pick(FreeA(x1)) o == Pick(FreeO(x1))
          vars2 == <<pt, IF vt = t THEN pt ELSE vt>>
          x2 == [x1 EXCEPT !.arr[a1] = [alive |-> TRUE, owner |-> 0, w |-> TRUE, w0 |-> TRUE, held |-> FALSE, touched |-> TRUE],
@@ -213,7 +219,7 @@ InPlace(x, t, opnd) ==
          x3 == LockAll(x2, refs0)
          x4 == IF x.guard THEN Lock(x3, a1, TRUE) ELSE x3
      IN Collect([x4 EXCEPT !.op[o] = [alive |-> TRUE, vars |-> vars2, out |-> t,
-                                      refs |-> IF x.guard THEN Append(refs0, a1) ELSE <<>>, guarded |-> x.guard]])
+                                      refs |-> IF x.guard THEN Append(refs0, a1) ELSE <<>>, guarded |-> x.guard, unreg |-> {}]])
 
 \* a view operation on tensor p (basic indexing ...): the result's array is a NumPy view of p's array
 DoView(x, p) ==
@@ -229,7 +235,7 @@ DoView(x, p) ==
                                     base |-> IF x.ten[p].base = 0 THEN p ELSE x.ten[p].base, held |-> TRUE]]
       x3 == IF x.guard THEN Lock(x2, out, FALSE) ELSE x2
   IN [x3 EXCEPT !.op[o] = [alive |-> TRUE, vars |-> ts, out |-> t,
-                           refs |-> IF x.guard THEN Append(refs0, out) ELSE <<>>, guarded |-> x.guard]]
+                           refs |-> IF x.guard THEN Append(refs0, out) ELSE <<>>, guarded |-> x.guard, unreg |-> {}]]
 
 \* an operation whose forward pass raises: inputs are locked, then released again; the temporaries die
 FailOp(x, opnds) ==
@@ -241,8 +247,12 @@ FailOp(x, opnds) ==
 RECURSIVE Upstream(_, _)
 Upstream(x, t) == {t} \cup (IF x.ten[t].creator = 0 THEN {}
                            ELSE UNION {Upstream(x, x.op[x.ten[t].creator].vars[i]) : i \in 1..Len(x.op[x.ten[t].creator].vars)})
+\* (every tensor visited also forgets its consumers: `_ops.clear()`)
 Clear(x, t) == LET up == Upstream(x, t) IN
-  Collect([x EXCEPT !.ten = [u \in Ten |-> IF u \in up THEN [@[u] EXCEPT !.creator = 0] ELSE @[u]]])
+  Collect([x EXCEPT !.ten = [u \in Ten |-> IF u \in up THEN [@[u] EXCEPT !.creator = 0] ELSE @[u]],
+                    !.op = [o \in Ops |-> IF @[o].alive
+                                          THEN [@[o] EXCEPT !.unreg = @ \cup (up \cap {x.op[o].vars[i] : i \in 1..Len(x.op[o].vars)})]
+                                          ELSE @[o]]])
 
 DropT(x, t) == Collect([x EXCEPT !.ten[t].held = FALSE])
 DropA(x, a) == Collect([x EXCEPT !.arr[a].held = FALSE])
@@ -319,7 +329,9 @@ Spec == Init /\ [][Next]_vars
 LiveOps == {o \in Ops : s.op[o].alive}
 OpArrs(o) == {s.op[o].refs[i] : i \in 1..Len(s.op[o].refs)}
 \* (S) while an operation recorded under the guard is alive, the arrays it recorded are read-only
-Safe == \A o \in LiveOps : s.op[o].guarded => \A a \in OpArrs(o) : s.arr[a].alive => ~s.arr[a].w
+\* (histories in which the known finding F-C09-1 was triggered are exempt: the traversal of a missed consumer clears the
+\*  mutated tensor's new graph and releases its locks early)
+Safe == ~s.kf9 => \A o \in LiveOps : s.op[o].guarded => \A a \in OpArrs(o) : s.arr[a].alive => ~s.arr[a].w
 \* an array is "in a live graph" if a live op recorded it, its owner, or a view of it
 InLive(a) == \E o \in LiveOps : a \in OpArrs(o)
 Involved(a) == InLive(a) \/ (s.arr[a].owner # 0 /\ InLive(s.arr[a].owner))
